@@ -32,6 +32,8 @@ type PropMeta struct {
 	AllocBound  int               `json:"alloc_bound"`
 	AllocEventIsPanic bool        `json:"alloc_event_is_panic"`
 	SolverArgs  map[string][]string `json:"solver_args"`
+	TagSets     []string          `json:"tag_sets"`     // run the property once per tag set (C14)
+	Prefixes    []string          `json:"prefixes"`     // harness name prefixes (default VerifH_<ID>_)
 	NoValidate  []string          `json:"no_validate"` // harnesses excluded from translator validation (with reason in props)
 }
 
@@ -62,6 +64,7 @@ func main() {
 		replay  = flag.String("replay", "", "replay file")
 		noNative = flag.Bool("nonative", false, "dev: skip native build/replay/validation")
 		verbose = flag.Bool("v", false, "verbose")
+		tagset  = flag.Int("tagset", -1, "internal: index into tag_sets")
 	)
 	flag.Parse()
 	if *tier == "" {
@@ -97,6 +100,14 @@ func main() {
 	if meta.Tags == "" {
 		meta.Tags = "verif"
 	}
+	if len(meta.TagSets) > 0 && *tagset < 0 && *pkgs == "" {
+		os.Exit(runTagSets(*prop, *tier, meta, *vdir, *verbose))
+	}
+	evName := *prop
+	if *tagset >= 0 {
+		meta.Tags = meta.TagSets[*tagset]
+		evName = fmt.Sprintf("%s.tagset%d", *prop, *tagset)
+	}
 	tmo := meta.TimeoutMs
 	if *tier == "thorough" && meta.ThoroughTimeoutMs > 0 {
 		tmo = meta.ThoroughTimeoutMs
@@ -108,7 +119,7 @@ func main() {
 		tmo = *timeout
 	}
 	t0 := time.Now()
-	genDir := filepath.Join(*vdir, "gen", *prop)
+	genDir := filepath.Join(*vdir, "gen", evName)
 	os.RemoveAll(genDir)
 	l, err := gosym.Load(*repo, hdir, meta.Pkgs, meta.Tags, genDir)
 	if err != nil {
@@ -129,6 +140,9 @@ func main() {
 	prefixes := []string{"VerifH_" + *prop + "_"}
 	if *tier == "thorough" {
 		prefixes = append(prefixes, "VerifT_"+*prop+"_")
+	}
+	if len(meta.Prefixes) > 0 {
+		prefixes = meta.Prefixes
 	}
 	if *run != "" {
 		prefixes = strings.Split(*run, ",")
@@ -207,7 +221,7 @@ func main() {
 	var samples []interface{}
 	inconclusive := []string{}
 	unsupported := []string{}
-	replayDir := filepath.Join(*vdir, "replays", *prop)
+	replayDir := filepath.Join(*vdir, "replays", evName)
 	for _, f := range fns {
 		h := runs[f.Name()]
 		if *verbose || *prop == "" {
@@ -337,7 +351,7 @@ func main() {
 		samples = append(samples, "no completed path")
 	}
 	ev := map[string]interface{}{
-		"property_id": *prop, "tier": *tier, "seed": seed, "level": "model_checking",
+		"property_id": *prop, "tier": *tier, "build_tags": meta.Tags, "seed": seed, "level": "model_checking",
 		"coverage": map[string]interface{}{
 			"states": max1(totalPaths), "transitions": max1(totalDecisions),
 			"traces_validated_against_impl": validated + replays,
@@ -368,7 +382,7 @@ func main() {
 	os.MkdirAll(filepath.Join(*vdir, "evidence"), 0o755)
 	if *prop != "" {
 		b, _ := json.MarshalIndent(ev, "", " ")
-		os.WriteFile(filepath.Join(*vdir, "evidence", *prop+".json"), b, 0o644)
+		os.WriteFile(filepath.Join(*vdir, "evidence", evName+".json"), b, 0o644)
 	}
 	for _, l := range outLines {
 		fmt.Println(l)
